@@ -25,6 +25,7 @@
    Strings are lists of character codes.  No proofs in this file. *)
 From ASV Require Import Base Loc.
 From ASV.C05 Require Model.
+From ASV.C04 Require Model.
 
 Definition E_Unsupported := 98.
 
@@ -703,6 +704,90 @@ Definition gfa_parse (text : str) : res gfa :=
          end
   end.
 
+(* ---------- generic features on the read path (Record.from_biopython) ---------- *)
+
+(* location_bridges_origin(location, allow_reversing): the answer AND the location as the call leaves it.  With
+   allow_reversing a reverse-strand location whose exon order is "invalid for the strand" is reversed IN PLACE
+   (location.parts.reverse()); when the reversed order is valid it stays reversed and the answer is False, otherwise it
+   is swapped back.  Without allow_reversing nothing is written.  (Common/Loc.v: bridges = the answer for False.) *)
+Definition bridges_origin (allow : bool) (l : loc) : bool * loc :=
+  if negb (is_compound l) then (false, l) else
+  let st := lstrand l in
+  if negb ((st =? 1) || (st =? -1)) then (negb (sorted_le (map ps l)), l) else
+  if check_order st l then
+    if allow && (st =? -1) then
+      if negb (check_order st (rev l)) then (false, rev l) else (true, l)
+    else (true, l)
+  else (false, l).
+
+(* location_contains_overlapping_exons: exons sharing an end coordinate *)
+Fixpoint has_dup (l : list Z) : bool :=
+  match l with [] => false | x :: r => existsb (Z.eqb x) r || has_dup r end.
+Definition overlapping_exons (l : loc) : bool := is_compound l && has_dup (map pe l).
+
+(* feature types as far as the read path distinguishes them: 0 "misc_feature", 1 any other type that becomes a plain
+   Feature (regulatory, repeat_region, tRNA, mobile_element, ...), 2 "gene" *)
+Definition T_misc := 0.
+Definition T_gene := 2.
+
+(* Record.from_biopython(seq_record, "bacteria") on one feature of a record of length n, as far as its location goes:
+     ensure_valid_locations(features, can_be_circular=True, n): end > n, exons sharing an end -> ValueError ->
+         SecmetInvalidInputError; (can_be_circular: return before the exon-order tests);
+     a multi-part location from 0 to n on a linear record -> SecmetInvalidInputError;
+     the NCBI-Pfam prefilter: misc_feature and location_bridges_origin(location, allow_reversing=False)
+         -> remove_redundant_exons;
+     add_biopython_feature -> Feature.__init__ (negative start: ValueError -> SecmetInvalidInputError)
+         -> add_feature / add_gene -> ensure_valid_locations([feature], record.is_circular(), n): only for a gene with a
+         strand on a linear record whose exon order bridges: location_bridges_origin(location, allow_reversing=True)
+         (reverses in place when that helps, ValueError -> SecmetInvalidInputError when not). *)
+Definition read_feature_loc (n : Z) (circular : bool) (ty : Z) (l : loc) : res loc :=
+  if n <? lend l then Err E_SecmetInvalid else
+  if overlapping_exons l then Err E_SecmetInvalid else
+  if is_compound l && (lstart l =? 0) && (lend l =? n) && negb circular then Err E_SecmetInvalid else
+  let l1 := if (ty =? T_misc) && fst (bridges_origin false l) then remove_redundant_exons l else l in
+  if lstart l1 <? 0 then Err E_SecmetInvalid else
+  if (ty =? T_gene) && negb circular && ((lstrand l1 =? 1) || (lstrand l1 =? -1)) && fst (bridges_origin false l1) then
+    let '(still, l2) := bridges_origin true l1 in
+    if still then Err E_SecmetInvalid else Ok l2
+  else Ok l1.
+
+(* the locations a record can hold and write: no exon inside another one (what the prefilter removes), and - for a gene
+   on a linear record - exons in the order of the strand (what add_gene itself enforces) *)
+Fixpoint nested_free (l : loc) : bool :=
+  match l with
+  | [] => true
+  | p :: r => forallb (fun q => negb (part_contains p q) && negb (part_contains q p)) r && nested_free r
+  end.
+Definition writable (circular : bool) (ty : Z) (l : loc) : bool :=
+  nested_free l && (negb ((ty =? T_gene) && negb circular) || negb (bridges l)).
+
+(* the property on one feature: a location that a record can hold comes back as it was *)
+Definition read_spec_ok (circular : bool) (ty : Z) (l : loc) (out : res loc) : bool :=
+  negb (writable circular ty l) ||
+  match out with Ok l' => loc_eqb l' l | Err _ => true end.
+
+(* ---------- CDS features: Record.add_cds_feature on reload ---------- *)
+(* bisect.bisect_left(self._cds_features, cds) with Feature.__lt__ (sort key (start, len(location)), the start of an
+   origin-crossing location being lowest start - highest end of its pre-origin exons; C04.Model.cmp_key 1).  The
+   comparison raises ValueError when split_origin_bridging_location refuses the exon order. *)
+Definition feature_key (l : loc) : res (Z * Z) := C04.Model.cmp_key 1 l.
+Definition insert_cds (acc : res (list loc)) (x : loc) : res (list loc) :=
+  do l <- acc;
+  match l with
+  | [] => Ok [x]
+  | _ =>
+    do kx <- feature_key x;
+    do ks <- mapM feature_key l;
+    Ok (C05.Model.insert_at (C05.Model.bisect_left (fun ke => C04.Model.pair_lt ke kx) ks) x l)
+  end.
+(* the CDS features of a file, re-added in file order *)
+Definition cds_reload (file : list loc) : res (list loc) := fold_left insert_cds file (Ok []).
+
+(* the stored list is what re-adding it gives: the CDS part of the fixed point *)
+Definition cds_spec_ok (stored : list loc) : bool :=
+  match cds_reload stored with Ok l => list_eqb loc_eqb l stored | Err _ => false end.
+
+
 Definition dGfa : dec gfa := fun l =>
   match l with
   | f :: r => match dPair dStr (dPair (dOpt dStr) dStr) r with
@@ -745,5 +830,36 @@ Definition run_C10 (fn : Z) (l : list Z) : list Z :=
   | 10 => match dStr l with Some (s, []) => eRes eGfa (gfa_parse s) | _ => bad_input end
   | 11 => match dStr l with Some (s, []) => eRes (eList eStr) (parse_format domain_format s) | _ => bad_input end
   | 12 => match dList dStr l with Some (ss, []) => eRes eZs (numbers_parse ss) | _ => bad_input end
+  (* location_bridges_origin(location, allow_reversing) -> answer, location afterwards *)
+  | 13 => match l with
+          | allow :: r => match dLoc r with
+                          | Some (x, []) => let '(b, x') := bridges_origin (negb (allow =? 0)) x in eBool b ++ eLoc x'
+                          | _ => bad_input end
+          | _ => bad_input end
+  (* Record.from_biopython on one feature: n, circular, type code, location -> location held by the record *)
+  | 14 => match l with
+          | n :: circ :: ty :: r => match dLoc r with
+                                    | Some (x, []) => eRes eLoc (read_feature_loc n (negb (circ =? 0)) ty x)
+                                    | _ => bad_input end
+          | _ => bad_input end
+  | 114 => match l with
+           | n :: circ :: ty :: r => match dLoc r with
+                                     | Some (x, out) =>
+                                       match out with
+                                       | 0 :: o => match dLoc o with
+                                                   | Some (x', _) => eBool (read_spec_ok (negb (circ =? 0)) ty x (Ok x'))
+                                                   | None => bad_input end
+                                       | _ => [1]
+                                       end
+                                     | _ => bad_input end
+           | _ => bad_input end
+  (* CDS features added in the given order -> the stored list *)
+  | 15 => match dList dLoc l with Some (xs, []) => eRes (eList eLoc) (cds_reload xs) | _ => bad_input end
+  | 115 => match dList dLoc l with
+           | Some (_, 0 :: o) => match dList dLoc o with
+                                 | Some (stored, _) => eBool (cds_spec_ok stored)
+                                 | None => bad_input end
+           | Some (_, _) => [1]
+           | None => bad_input end
   | _ => bad_input
   end.
